@@ -9,7 +9,7 @@ open Parsley Parsley.Obj Parsley.Spelling Parsley.DocSpec Driver
 
 /-! Line protocol of C03 and C04 (the C04 driver reuses everything here).
 
-    case lines (word 2 is always the hex of the file, which is all the Rust side reads):
+    case lines (word 2 is the hex of the file, which is all the Rust side reads - except for `garb` / `garh`):
       doc  <hex> <seed> <variant>   a well-formed one-revision document: must load to exactly its objects
       mism <hex> <seed> <variant>   the same with the offsets of two in-use entries exchanged: must be rejected
       sys  <hex> <seed> <variant> <mode>   purpose-built document (plain objects, streams with direct / backward /
@@ -32,6 +32,12 @@ open Parsley Parsley.Obj Parsley.Spelling Parsley.DocSpec Driver
                                     DocSpec.acceptable (a declaring document may be refused or must load EXACTLY what
                                     `resolve` says; accepted with objects missing / extra / wrong is bad); see `judgeEnc`
       ench <hex> <seed> <variant>   the same over histories (C04; generator in Driver/C04.lean)
+      garb <hex of the DOCUMENT> <seed> <variant> <lk> <ll> <gk> <gl> <tk> <tl> [o]
+                                    size sweep of the bytes around a well-formed document: filler of kind lk and length ll
+                                    before the header, (gk, gl) in the gap before the last `startxref`, (tk, tl) after the
+                                    last %%EOF; the only case kind whose word 2 is NOT the whole file (see `garbFile`);
+                                    an accepted load is followed by ` @<reported file offset of the header>`; `o` = oracle-only
+      garh ...                      the same around a history (C04; generator in Driver/C04.lean)
       hist <hex> <seed> <variant>   a history (C04): newest revision wins / bad /Prev chain rejected
       exp  <hex> <expected output>  hand-built corpus case with the expected output spelled out
       decl <hex> <exact load>       hand-built file that declares encryption: `rejected` or exactly the spelled-out load
@@ -53,8 +59,79 @@ def showLoaded : Loader.Out Loader.Loaded → String
   | .panic p => s!"panic {p}"
   | .ok l => s!"ok {l.root.1} {l.root.2}" ++ showDefs l.defs
 
+/-! ### filler bytes of the `garb` / `garh` size sweeps
+
+    `garb <hex of the document> <seed> <variant> <lk> <ll> <gk> <gl> <tk> <tl> [o]`: the file is NOT spelled out in the case
+    line (the sweep goes up to 10^6 bytes); word 2 is the document alone and the three (kind, length) pairs describe what
+    is put BEFORE THE HEADER (leading garbage), in the GAP before the last `startxref` and AFTER THE LAST `%%EOF` (tail).
+    The Rust harness (harness/src/loader_common.rs `case_bytes`) and `garbFile` below expand the description the same
+    way; the filler is a pure function of (kind, length, salt), salt = seed / seed + 1 / seed + 2 for the three places:
+      0  zeros
+      1  pseudo-random bytes (a 31-bit linear congruential generator), every `%` replaced by `$`
+      2  text with look-alikes of everything the loader searches for: `%PDF` without the dash, `%%EOF`, `startxref`, `xref`,
+         `trailer` (not after %%EOF: the LAST %%EOF ends the document)
+      3  an earlier PDF file whose first bytes (`%PDF-`) were cut off: objects, table, trailer, startxref, %%EOF (not after %%EOF)
+      4  look-alikes that are legal after the last %%EOF too: `%%EO`, `%EOF`, `%%E0F`, `startxref`, even `%PDF-1.7`
+         (not before the header: the FIRST magic is the header)
+      5  white space and a comment line
+    kinds 2-5 repeat their pattern from position `salt mod length of the pattern`, so the cut at the document's first /
+    last byte falls at every place of the pattern (`%PDF` right before `%PDF-1.5`, `%%EO` right before ...). -/
+
+def fillPat (kind : Nat) : Bytes :=
+  match kind with
+  | 2 => bs "%PDF 1.4\n%PDF_1.7 %PDF\n%%EOF\nstartxref\n0\n%%EOF\nxref\n0 1\n0000000000 65535 f \ntrailer\n<< /Size 1 /Root 1 0 R >>\n"
+  | 3 => bs "1.4\n1 0 obj\n<< /Type /Catalog /Pages 2 0 R >>\nendobj\n2 0 obj\n<< /Type /Pages /Kids [] /Count 0 >>\nendobj\nxref\n0 3\n0000000000 65535 f \n0000000004 00000 n \n0000000053 00000 n \ntrailer\n<< /Size 3 /Root 1 0 R >>\nstartxref\n109\n%%EOF\n"
+  | 4 => bs "%%EO\n%EOF\nstartxref\n7\n%%E0F %%EOf\n%PDF-1.7\ntrailer\n<< /Size 9 >>\nstartxre\n"
+  | _ => bs " \n\r\n\t % padding\n  "
+
+def fill (kind len salt : Nat) : Bytes :=
+  match kind with
+  | 0 => List.replicate len 0
+  | 1 => Id.run do
+    let mut s := salt % 2147483648
+    let mut out : Array UInt8 := Array.mkEmpty len
+    for _ in [0:len] do
+      s := (s * 1103515245 + 12345) % 2147483648
+      let b := (s / 65536) % 256
+      out := out.push (UInt8.ofNat (if b == 37 then 36 else b))
+    return out.toList
+  | k =>
+    let p := (fillPat k).toArray
+    let n := p.size
+    (List.range len).map fun i => p[(salt + i) % n]?.getD 32
+
+/-- may a filler of this kind stand before the header / after the last %%EOF? (anything may stand in the gap) -/
+def leadKinds : List Nat := [0, 1, 2, 3, 5]
+def tailKinds : List Nat := [0, 1, 4, 5]
+def gapKinds : List Nat := [0, 1, 2, 3, 4, 5]
+
+/-- the file of a `garb` / `garh` case -/
+def garbFile (doc : Bytes) (seed lk ll gk gl tk tl : Nat) : Bytes :=
+  let gp := (lastIndexOf (bs "startxref") doc).getD doc.length
+  fill lk ll seed ++ doc.take gp ++ fill gk gl (seed + 1) ++ doc.drop gp ++ fill tk tl (seed + 2)
+
+/-- an accepted load of a `garb` / `garh` case also reports where the header was found (`FileInfo::file_offset(0)`) -/
+def showLoadedAt (data : Bytes) : String :=
+  let out := Loader.parseData data
+  match out with
+  | .ok _ => showLoaded out ++ s!" @{(Loader.scanFwd Loader.kwPdf data).getD 0}"
+  | _ => showLoaded out
+
+def isGarbTag (t : String) : Bool := t == "garb" || t == "garh"
+
 def model (line : String) : String :=
   match words line with
+  | tag :: hex :: seed :: _ :: lk :: ll :: gk :: gl :: tk :: tl :: rest =>
+    if isGarbTag tag then
+      -- (`o`: oracle-only - the byte-list model recurses once per byte in its scans; above `garbModelMax` bytes it is not run)
+      if rest == ["o"] then "nomodel" else
+      match bytesOfHex hex with
+      | some b => showLoadedAt (garbFile b seed.toNat! lk.toNat! ll.toNat! gk.toNat! gl.toNat! tk.toNat! tl.toNat!)
+      | none => "bad-case"
+    else
+      match bytesOfHex hex with
+      | some b => showLoaded (Loader.parseData b)
+      | none => "bad-case"
   | _ :: hex :: _ =>
     match bytesOfHex hex with
     | some b => showLoaded (Loader.parseData b)
@@ -726,11 +803,91 @@ def genEncDoc (seed variant : Nat) : EncScene :=
     | _ => ⟨v, place != 1, place != 0⟩
   ⟨garbage, bin == 1, [(rev, some d, .auto)], [0]⟩
 
+/-! ### SIZE SWEEP of the bytes around a document (`garb`; histories: `garh` in Driver/C04.lean)
+
+    The statement of C03 lets ANY amount of bytes stand before the header; its end-to-end theorems (ClassicFile,
+    XrefStreamFile, HybridFile: fields `garbage`, `gap`, `trail`) also let anything stand between the last
+    cross-reference section and `startxref` and after the last `%%EOF`.  Every length of `sweepSizes` is put at each of
+    the three places of a well-formed document of every layout; the oracle is `DocSpec.resolve` of the document - the
+    filler changes nothing - and the header offset an accepted load reports must be the length of the leading filler. -/
+
+/-- every length 0..40, the neighbourhoods of the powers of two up to 2^16, of 1000 and of 1024 (minus the 5 bytes
+    of the magic: 1019, 1020, 1021), some large ones -/
+def sweepSizes (tier : String) : List Nat :=
+  List.range 41 ++ [63, 64, 65, 127, 128, 255, 256, 511, 512, 1000, 1019, 1020, 1021, 1023, 1024, 1025, 2047, 2048,
+    4095, 4096, 4097, 8192, 65535, 65536, 70000] ++ (if tier == "thorough" then [1000000] else [])
+
+/-- the document of a `garb` case, written without anything around it: variant % 4 = 0, 1, 2: the purpose-built document
+    of the `sys` cases (plain objects, streams with direct / backward / FORWARD referenced /Length, an object stream
+    where the layout has one) as a classic table / cross-reference stream / hybrid file; 3: a random document of the
+    `doc` family (layout (variant / 4) % 6) -/
+def garbBase (seed variant : Nat) : Scene :=
+  let sc := if variant % 4 == 3 then genDoc seed ((variant / 4) % 6) else genSys seed (variant % 4) 8
+  { sc with garbage := [] }
+
+/-- the bytes the model may be asked to read (its scans recurse once per byte: stack) -/
+def garbModelMax : Nat := 100000
+
+structure GarbCase where
+  seed : Nat
+  variant : Nat
+  lk : Nat
+  ll : Nat
+  gk : Nat
+  gl : Nat
+  tk : Nat
+  tl : Nat
+
+def garbLine (tag : String) (doc : Bytes) (c : GarbCase) : String :=
+  s!"{tag} {hexOfBytes doc} {c.seed} {c.variant} {c.lk} {c.ll} {c.gk} {c.gl} {c.tk} {c.tl}" ++
+    (if doc.length + c.ll + c.gl + c.tl > garbModelMax then " o" else "")
+
+def pickKind (kinds : List Nat) (i : Nat) : Nat := kinds[i % kinds.length]?.getD 0
+
+/-- the sweep: for every size (index `i`) and every base document `v` of `variants` one case per place, the filler kind
+    rotating with i + v + seed; and one case per size with all three places filled (sizes up to 8192) -/
+def garbSweep (seed : Nat) (tier : String) (variants : List Nat) : List GarbCase :=
+  let sizes := sweepSizes tier
+  let small := sizes.filter (· ≤ 8192)
+  sizes.zipIdx.flatMap fun (len, i) =>
+    let s := seed * 1009 + i
+    (variants.flatMap fun v =>
+      let k := i + v + seed
+      [ ⟨s, v, pickKind leadKinds k, len, 0, 0, 0, 0⟩,
+        ⟨s, v, 0, 0, pickKind gapKinds k, len, 0, 0⟩,
+        ⟨s, v, 0, 0, 0, 0, pickKind tailKinds k, len⟩ ]) ++
+    (if len ≤ 8192 then
+      let v := variants[i % variants.length]?.getD 0
+      [ ⟨s, v, pickKind leadKinds (i + seed + 1), len,
+         pickKind gapKinds (i + seed + 2), small[(i * 7 + 3) % small.length]?.getD 0,
+         pickKind tailKinds (i + seed + 3), small[(i * 11 + 5) % small.length]?.getD 0⟩ ]
+    else [])
+
+/-- `garb` / `garh`: the document re-derives from (seed, variant) and renders to word 2; the filler kinds are legal at
+    their places; expected = `resolve` of the document, reported header offset = length of the leading filler -/
+def judgeGarb (sc : Scene) (hex : String) (lk ll tk : Nat) (impl : String) : String :=
+  let got := impl.trimAscii.toString
+  if got == "nomodel" then "skip"                                   -- (the model's side of an oracle-only case)
+  else if !sc.garbage.isEmpty || !leadKinds.contains lk || !tailKinds.contains tk then
+    "bad generator-mismatch filler kind not allowed at its place"
+  else
+    let (main, hofs) : String × Option String :=
+      match got.splitOn " @" with
+      | [m, a] => (m, some a)
+      | _ => (got, none)
+    let v := judgeScene sc hex main
+    if v != "ok" then v
+    else if main == "rejected" then "ok"
+    else if hofs == some (toString ll) then "ok"
+    else s!"bad wrong-header-offset reported {hofs.getD "-"} want {ll}"
+
 def judge (case impl : String) : String :=
   match judgeCommon case impl with
   | some v => v
   | none =>
     match words case with
+    | "garb" :: hex :: seed :: variant :: lk :: ll :: _ :: _ :: tk :: _ =>
+      judgeGarb (garbBase seed.toNat! variant.toNat!) hex lk.toNat! ll.toNat! tk.toNat! impl
     | ["doc", hex, seed, variant] => judgeScene (genDoc seed.toNat! variant.toNat!) hex impl
     | ["mism", hex, seed, variant] => judgeScene (genMism seed.toNat! variant.toNat!) hex impl
     | ["sys", hex, seed, variant, mode] => judgeScene (genSys seed.toNat! variant.toNat! mode.toNat!) hex impl
@@ -763,7 +920,13 @@ def mutate (b : Bytes) (r : Rng) : Bytes × Rng :=
     -- drop the tail from a random position but keep the last 40 bytes (startxref .. %%EOF)
     (b.take pos ++ b.drop (b.length - 40), r)
 
-def gen (seed n : Nat) (_tier : String) (emit : String → IO Unit) : IO Unit := do
+def gen (seed n : Nat) (tier : String) (emit : String → IO Unit) : IO Unit := do
+  -- size sweep of leading garbage / gap before startxref / tail after %%EOF over every layout (the same sizes for every
+  -- seed; the seed picks documents and filler kinds); thorough: three more rounds with other documents
+  for rep in List.range (if tier == "thorough" then 4 else 1) do
+    for c in garbSweep (seed + 7 * rep) tier [0, 1, 2, 3 + 4 * ((seed + rep) % 6)] do
+      let (doc, _, _, _) := render (garbBase c.seed c.variant)
+      emit (garbLine "garb" doc c)
   for k in List.range n do
     let s := seed * 100003 + k
     let v := k % 6
@@ -808,6 +971,8 @@ def nontrivial (line : String) : Bool :=
   | "lenc" :: _ => true
   | "lenh" :: _ => true
   | "long" :: _ => true
+  | "garb" :: _ => true
+  | "garh" :: _ => true
   | "ench" :: _ => true
   | "decl" :: _ => true
   | "exp" :: _ => true
